@@ -1196,6 +1196,53 @@ func coqWDecls(ins []inDecl) string {
 	return hx.CoqList(xs)
 }
 
+// `required:` as written (Wf/RequiredExpr.v yreq)
+func coqReq(r *bool, expr bool) string {
+	switch {
+	case expr:
+		return "RqExpr"
+	case r == nil:
+		return "RqAbsent"
+	case *r:
+		return "(RqBool true)"
+	}
+	return "(RqBool false)"
+}
+
+func coqWDeclsR(ins []inDecl) string {
+	xs := make([]string, len(ins))
+	for i, d := range ins {
+		ty := "None"
+		if d.Type != "" {
+			ty = "(Some " + hx.CoqStr(d.Type) + ")"
+		}
+		xs[i] = fmt.Sprintf("(%s, Build_wdeclr %s %s %s)", hx.CoqStr(d.Name), coqReq(d.Required, d.ReqExpr), coqDefault(d), ty)
+	}
+	return hx.CoqList(xs)
+}
+
+func coqSDeclsR(secs []secDecl) string {
+	xs := make([]string, len(secs))
+	for i, s := range secs {
+		xs[i] = fmt.Sprintf("(%s, %s)", hx.CoqStr(s.Name), coqReq(s.Required, s.ReqExpr))
+	}
+	return hx.CoqList(xs)
+}
+
+func anyReqExpr(ins []inDecl, secs []secDecl) bool {
+	for _, d := range ins {
+		if d.ReqExpr {
+			return true
+		}
+	}
+	for _, s := range secs {
+		if s.ReqExpr {
+			return true
+		}
+	}
+	return false
+}
+
 func coqSDecls(secs []secDecl) string {
 	xs := make([]string, len(secs))
 	for i, s := range secs {
@@ -1462,8 +1509,16 @@ func (r *run) deriveWf(root, calleePath, cy string, ins []inDecl, secs []secDecl
 		hx.Must(fmt.Errorf("no metadata for generated callee in %s", root))
 	}
 	decls := fmt.Sprintf("%s %s %s", coqWDecls(ins), coqSDecls(secs), coqStrs(outs))
-	r.derive = append(r.derive, fmt.Sprintf("(DWfFile %s, %s)", decls, hx.CoqList(wfTuples(mf))))
-	r.derive = append(r.derive, fmt.Sprintf("(DWfAst %s, %s)", decls, hx.CoqList(wfTuples(ma))))
+	if anyReqExpr(ins, secs) {
+		// the model decodes `required:` as written itself
+		declsR := fmt.Sprintf("%s %s %s", coqWDeclsR(ins), coqSDeclsR(secs), coqStrs(outs))
+		r.derive = append(r.derive, fmt.Sprintf("(DWfFileR %s, %s)", declsR, hx.CoqList(wfTuples(mf))))
+		r.derive = append(r.derive, fmt.Sprintf("(DWfAstR %s, %s)", declsR, hx.CoqList(wfTuples(ma))))
+		r.sum.Dist["derive/required-as-written"]++
+	} else {
+		r.derive = append(r.derive, fmt.Sprintf("(DWfFile %s, %s)", decls, hx.CoqList(wfTuples(mf))))
+		r.derive = append(r.derive, fmt.Sprintf("(DWfAst %s, %s)", decls, hx.CoqList(wfTuples(ma))))
+	}
 	r.sum.Dist["derive/workflow-file"]++
 	r.sum.Dist["derive/workflow-ast"]++
 	files := map[string]string{".github/workflows/callee.yml": cy}
